@@ -141,7 +141,17 @@ func makeEntries(k, lg, maxDepth int, small bool) ([]*hEntry, *verifmodel.NameHa
 			// restrict buckets on every consumable level to {0,1,F-1}: min, adjacent, max
 			for d := 0; d < maxDepth; d++ {
 				c := chunkOf(e.hash, d, lg)
-				verifrt.Assume(c == 0 || c == 1 || c == 1<<uint(lg)-1)
+				if verifrt.Param("fixedbuckets", 0) == 1 {
+					// one collision pattern only (entries share level 0, split at level 1):
+					// used when the sizes, not the buckets, are the symbolic dimension
+					if d == 0 {
+						verifrt.Assume(c == 1)
+					} else {
+						verifrt.Assume(c == i%(1<<uint(lg)))
+					}
+				} else {
+					verifrt.Assume(c == 0 || c == 1 || c == 1<<uint(lg)-1)
+				}
 			}
 		}
 		if verifrt.Native() {
@@ -191,7 +201,16 @@ func VerifShardedDir() {
 	if verifrt.Native() {
 		probe.name = verifmodel.FindName(99, probe.hash, maxDepth*lg)
 	} else {
-		probe.name = "zz"
+		// unrelated, or related to an entry's name as proper suffix / extension (its
+		// hash is arbitrary, so it may be routed to that entry's bucket)
+		switch verifrt.Choose(3) {
+		case 0:
+			probe.name = "zz"
+		case 1:
+			probe.name = es[0].name[1:]
+		default:
+			probe.name = es[0].name + "q"
+		}
 		tab.Set(probe.name, probe.hash)
 	}
 	st := verifmodel.NewStore()
